@@ -23,7 +23,9 @@ def check(run):
                 "a formula); blocks = paragraphs of styled/linked text with <ref>s, properly nested */# lists (depth <= 3), tables of 1-4 "
                 "rows x 1-4 columns with optional caption/header row, tables of 2-4 x 2-3 cells of which 1-2 hold 1-4 blocks (paragraphs/"
                 "lists) of 1-5 / 10-60 / 100-330 words (whole table < 2400 characters), preformatted blocks with captioned images, "
-                "indented lines; 25% of the documents use named references incl. re-use; words are unique except that 12% of the documents "
+                "indented lines, blocks of 2..25 structurally equal (85%) or distinct captioned images in one preformatted line / indented "
+                "lines inside one paragraph (all mis-nested under ONE ancestor: content must be neither lost, re-ordered nor multiplied); "
+                "25% of the documents use named references incl. re-use; words are unique except that 12% of the documents "
                 "repeat one inline element / list item / cell line verbatim (structurally equal siblings). distinct = distinct wikitext; "
                 "non-trivial = at least one pass changed the tree")
     run.trusted = c05.TRUSTED + ["the oracle's labelling (vt/harness/c05_snap.c07_compare): a section / reference is identified by the "
